@@ -7,7 +7,7 @@ from vlib.common import Result, run_driver, build_driver, GenError
 from props import c12_gen
 
 PID = "C12"
-LEAN_MODULES = ["BemppVerif.Props.C12Tables", "BemppVerif.Props.C12"]
+LEAN_MODULES = ["BemppVerif.Props.C12Tables", "BemppVerif.Props.C12", "BemppVerif.Props.C12Duffy"]
 N = "BemppVerif.C12."
 THEOREMS = [N + t for t in [
     "tri_exact_all", "tri_exact", "gauss_exact_all", "gauss_exact", "gauss_interior_all",
@@ -15,11 +15,13 @@ THEOREMS = [N + t for t in [
     "duffy_exact_upto3_partial",
     "duffy_count", "vertex_adjacent_exact", "fixup_maps_triangle", "coincident_regions_swap",
     "coincident_rule_swap_invariant", "remap_vertex_bary", "remap_edge_bary", "remap_edge_rejects",
+    "edge_check", "coincident_check", "edge_adjacent_exact", "coincident_exact",
 ]]
 PARTIAL = {
-    N + "duffy_exact_upto3_partial": "edge-adjacent and coincident exactness is a kernel computation on the tabulated "
-    "rule for n = 2,3 (n = 4 in C12Deep, thorough tier); for larger n only the point count, the vertex-adjacent "
-    "exactness (all n) and the swap/remap structure are theorems",
+    N + "duffy_exact_upto3_partial": "kernel computation on the TABULATED rule for n = 2,3 (tolerance 1e-13); the "
+    "all-n theorems edge_adjacent_exact / coincident_exact (exact 1-D moments, monomials of total degree <= 6, proved by "
+    "reflection) and vertex_adjacent_exact (all degrees) cover every order; degrees 7..2n-4 for n >= 6 are not proved for "
+    "the edge-adjacent and coincident rules",
     N + "vertex_adjacent_exact": "stated for a 1-D rule with exact moments; the tabulated Gauss rule has them to 1e-14 "
     "(gauss_exact), the perturbation argument is not formalised",
 }
@@ -386,9 +388,9 @@ LEVEL_TEXT = ("Lean 4 theorems, re-checked by the kernel on every run against ta
               "exact rational arithmetic on the binary64 table values; lookups are rejected exactly outside 1..20 / 1..30; for "
               "EVERY order n and every 1-D rule the singular rules have 6n^4/5n^4/2n^4 points, the vertex-adjacent rule is exact "
               "for all monomials of degree <= 2n-4 (given exact 1-D moments), the coincident rule is swap-invariant and every "
-              "remap permutes barycentric coordinates; edge-adjacent/coincident exactness is a kernel computation for n<=3 (4 in "
-              "thorough).  The hand model of rule()/duffy/remaps is compared exactly with the implementation through the driver.")
-LEVEL_NOTE = ("partial: edge-adjacent/coincident exactness for n>4 and geometric convergence for 1/|x-y| are not theorems (oracle "
+              "remap permutes barycentric coordinates; the edge-adjacent and coincident rules are exact for all monomials of total "
+              "degree <= min(2n-4, 6) for EVERY n (reflection proof), and on the tabulated rule for n<=3 by kernel computation.  The hand model of rule()/duffy/remaps is compared exactly with the implementation through the driver.")
+LEVEL_NOTE = ("partial: edge-adjacent/coincident exactness for degrees 7..2n-4 (n>=6) and geometric convergence for 1/|x-y| are not theorems (oracle "
               "only).  Trusted: Lean kernel, ast table extractor, hand model Model/Quad.lean tied by differential comparison, "
               "IEEE rounding not modelled.")
 TECHNIQUE = "Lean 4 proof (decide +kernel on regenerated tables, ring/field_simp structure theorems) + differential correspondence"
